@@ -92,9 +92,12 @@ ConstEval(e) ==
 
 \* ------------------------------------------------------------- functions
 \* annotation: none | a concrete vector | the type parameter D raised to a rational power
-ANone == [k |-> "none", v |-> Scalar, e |-> R(1)]
-AConc(v) == [k |-> "conc", v |-> v, e |-> R(1)]
-ATp(n, d) == [k |-> "tp", v |-> Scalar, e |-> <<n, d>>]
+\* (two type parameters D and E: D^e * E^e2; a parameter annotation mentions exactly one of them)
+ANone == [k |-> "none", v |-> Scalar, e |-> R(1), e2 |-> R(0)]
+AConc(v) == [k |-> "conc", v |-> v, e |-> R(1), e2 |-> R(0)]
+ATp(n, d) == [k |-> "tp", v |-> Scalar, e |-> <<n, d>>, e2 |-> R(0)]
+ATpE(n, d) == [k |-> "tp", v |-> Scalar, e |-> R(0), e2 |-> <<n, d>>]
+ATpDE(n, d, n2, d2) == [k |-> "tp", v |-> Scalar, e |-> <<n, d>>, e2 |-> <<n2, d2>>]
 
 \* the catalogue of function definitions used by the generators
 FnDef(f) ==
@@ -117,7 +120,13 @@ FnDef(f) ==
     [] f = "f_sqrt" -> [params |-> <<"x">>, panns |-> <<ATp(2, 1)>>, rann |-> ATp(1, 1),
                     wheres |-> << >>, body |-> Bin("pow", V("x"), Bin("div", Num(1, 1, "1"), Num(2, 1, "2"))),
                     text |-> "fn f_sqrt<D: Dim>(x: D^2) -> D = x^(1/2)"]
-FnNames == {"f_len", "f_sq", "f_sum", "f_inf", "f_where", "f_sqrt"}
+    [] f = "f_quot" -> [params |-> <<"a", "b">>, panns |-> <<ATp(1, 1), ATpE(1, 1)>>, rann |-> ATpDE(1, 1, -1, 1),
+                    wheres |-> << >>, body |-> Bin("div", V("a"), V("b")),
+                    text |-> "fn f_quot<D: Dim, E: Dim>(a: D, b: E) -> D / E = a / b"]
+    [] f = "f_mix" -> [params |-> <<"a", "b">>, panns |-> <<ATp(1, 1), ATpE(1, 1)>>, rann |-> ATpDE(1, 1, 2, 1),
+                    wheres |-> << >>, body |-> Bin("mul", V("a"), Bin("mul", V("b"), V("b"))),
+                    text |-> "fn f_mix<D: Dim, E: Dim>(a: D, b: E) -> D * E^2 = a * (b * b)"]
+FnNames == {"f_len", "f_sq", "f_sum", "f_inf", "f_where", "f_sqrt", "f_quot", "f_mix"}
 
 \* struct ZS { a: Length, b: Time }
 StructText == "struct ZS { a: Length, b: Time }"
@@ -134,10 +143,15 @@ MatchAnn(ann, t, bnd) ==
   IF ann.k = "none" THEN [ok |-> TRUE, bnd |-> bnd]
   ELSE IF ~IsDimLike(t) THEN [ok |-> FALSE, bnd |-> bnd]
   ELSE IF ann.k = "conc" THEN [ok |-> (t.k = "poly" \/ t.v = ann.v), bnd |-> bnd]
-  ELSE \* D^e
-       IF t.k = "poly" THEN [ok |-> TRUE, bnd |-> bnd]
-       ELSE LET d == VScale(t.v, RInv(ann.e)) IN
-            IF bnd.set THEN [ok |-> bnd.v = d, bnd |-> bnd] ELSE [ok |-> TRUE, bnd |-> [set |-> TRUE, v |-> d]]
+  ELSE IF t.k = "poly" THEN [ok |-> TRUE, bnd |-> bnd]
+  ELSE IF ~RIsZero(ann.e)     \* D^e
+       THEN LET d == VScale(t.v, RInv(ann.e)) IN
+            IF bnd.set THEN [ok |-> bnd.v = d, bnd |-> bnd] ELSE [ok |-> TRUE, bnd |-> [bnd EXCEPT !.set = TRUE, !.v = d]]
+       ELSE LET d == VScale(t.v, RInv(ann.e2)) IN   \* E^e2
+            IF bnd.set2 THEN [ok |-> bnd.v2 = d, bnd |-> bnd] ELSE [ok |-> TRUE, bnd |-> [bnd EXCEPT !.set2 = TRUE, !.v2 = d]]
+\* the dimension a return annotation D^e * E^e2 denotes under a binding
+AnnDim(ann, bnd) == VAdd(VScale(bnd.v, ann.e), VScale(bnd.v2, ann.e2))
+AnnBound(ann, bnd) == (RIsZero(ann.e) \/ bnd.set) /\ (RIsZero(ann.e2) \/ bnd.set2)
 
 RECURSIVE TypeOf(_, _)
 RECURSIVE MatchAll(_, _, _, _)
@@ -209,7 +223,7 @@ TypeOf(env, e) ==
          LET f == FnDef(e.name)
              ts == [i \in 1..Len(e.args) |-> TypeOf(env, e.args[i])] IN
          IF \E i \in 1..Len(ts) : IsErr(ts[i]) THEN ts[CHOOSE i \in 1..Len(ts) : IsErr(ts[i])]
-         ELSE LET m == MatchAll(f.panns, ts, 1, [set |-> FALSE, v |-> Scalar]) IN
+         ELSE LET m == MatchAll(f.panns, ts, 1, [set |-> FALSE, v |-> Scalar, set2 |-> FALSE, v2 |-> Scalar]) IN
            IF ~m.ok THEN Err("argument does not match parameter type")
            ELSE LET penv == [x \in {f.params[i] : i \in 1..Len(f.params)} |->
                                LET i == CHOOSE j \in 1..Len(f.params) : f.params[j] = x IN
@@ -221,9 +235,9 @@ TypeOf(env, e) ==
                      IF IsErr(bt) THEN bt
                      ELSE IF f.rann.k = "conc" THEN (IF bt.k = "poly" \/ (bt.k = "dim" /\ bt.v = f.rann.v) THEN Dim(f.rann.v)
                                                       ELSE Err("return type"))
-                     ELSE IF f.rann.k = "tp" /\ m.bnd.set
-                          THEN (IF bt.k = "poly" \/ (bt.k = "dim" /\ bt.v = VScale(m.bnd.v, f.rann.e))
-                                THEN Dim(VScale(m.bnd.v, f.rann.e)) ELSE Err("return type"))
+                     ELSE IF f.rann.k = "tp" /\ AnnBound(f.rann, m.bnd)
+                          THEN (IF bt.k = "poly" \/ (bt.k = "dim" /\ bt.v = AnnDim(f.rann, m.bnd))
+                                THEN Dim(AnnDim(f.rann, m.bnd)) ELSE Err("return type"))
                      ELSE bt
 
 \* JSON-friendly rendering of a type
